@@ -9,6 +9,7 @@ package main
 import (
 	"fmt"
 	"io"
+	"strings"
 	"unicode/utf16"
 )
 
@@ -272,6 +273,7 @@ func (r *isoReader) walk(rootLba, rootLen int64, joliet bool, reg *registry) ([]
 	sec := int64(t.Sector)
 	dirs := []interface{}{}
 	files := []interface{}{}
+	cum := map[string]int64{}
 	seen := map[int64]bool{}
 	queue := []dirRef{{path: []string{}, lba: rootLba, length: rootLen}}
 	for len(queue) > 0 && len(dirs) < 100000 {
@@ -318,7 +320,10 @@ func (r *isoReader) walk(rootLba, rootLen int64, joliet bool, reg *registry) ([]
 				if flags&int64(t.FlagDir) != 0 {
 					queue = append(queue, dirRef{path: childPath, lba: unpos(rec["extentL"].([2]int64)), length: unpos(rec["dataLenL"].([2]int64))})
 				} else {
-					files = append(files, r.fileFacts(childPath, rec, reg))
+					// prev: total length of the earlier records of this name in this directory (the earlier extents of the file)
+					key := strings.Join(childPath, "\x00")
+					files = append(files, r.fileFacts(childPath, rec, reg, cum[key]))
+					cum[key] += unpos(rec["dataLenL"].([2]int64))
 				}
 			}
 			p += l
@@ -330,7 +335,7 @@ func (r *isoReader) walk(rootLba, rootLen int64, joliet bool, reg *registry) ([]
 
 // fileFacts: one file record (one extent): where it is, how long, and windows of
 // its content located in the harness's content sources.
-func (r *isoReader) fileFacts(path []string, rec map[string]interface{}, reg *registry) map[string]interface{} {
+func (r *isoReader) fileFacts(path []string, rec map[string]interface{}, reg *registry, prev int64) map[string]interface{} {
 	t := isoTab
 	sec := int64(t.Sector)
 	lba := unpos(rec["extentL"].([2]int64))
@@ -353,7 +358,14 @@ func (r *isoReader) fileFacts(path []string, rec map[string]interface{}, reg *re
 		if alt == nil {
 			alt = []string{}
 		}
-		wins = append(wins, map[string]interface{}{"rel": pos(rel), "len": n, "runs": runs, "alt": alt})
+		// windows too short to identify themselves: which sources show these bytes at offset prev+rel (TLC decides whether
+		// that is the offset it expects)
+		at := reg.matchAt(b, prev+rel)
+		if at == nil {
+			at = []string{}
+		}
+		wins = append(wins, map[string]interface{}{"rel": pos(rel), "len": n, "runs": runs, "alt": alt,
+			"altAt": map[string]interface{}{"off": pos(prev + rel), "srcs": at}})
 	}
 	const W = 64 * 1024
 	if length <= 4*W {
